@@ -14,6 +14,12 @@ from vmc.probes import MonitoredEngine
 ID = 'C16'
 LEVEL = 'exploration'
 EXHAUSTIVE = True
+RULE_EXTRA = (
+    ' Also: Process.generate(config, path) as a one-process composite '
+    '(process / step, renamed, re-wired); MetaComposer over every ordered '
+    'pair of templates (union, trajectory == merge of the composites, '
+    'overlapping keys rejected); overrides a Composite carries survive '
+    'later merges.')
 RULE = (
     'four template composers (flat two-process; nested with ".."; steps + '
     'flow with two [] steps and a dependent; a process with a non-default '
@@ -28,6 +34,7 @@ RULE = (
     'deep-equal their earlier snapshots, then and later; entry-point '
     'trajectory equality; overrides reach exactly the named variable. '
     'Distinct by (template, path, merge sequence).')
+RULE = RULE + RULE_EXTRA
 ASSUMPTIONS = [
     'the three entry points are compared on the same explicit initial '
     'state S = composite.initial_state(); the variant without an explicit '
@@ -96,22 +103,33 @@ TEMPLATES = {
 }
 
 
+def _renamed(tree, suffix):
+    return {k + suffix: v for k, v in tree.items()} if suffix else tree
+
+
 class ProbeComposer(Composer):
-    defaults = {'template': 'flat'}
+    """config 'rename': a suffix for every top-level process / step key
+    (and the flow dependencies that name them), so that two templates can
+    be combined without overlapping keys."""
+    defaults = {'template': 'flat', 'rename': ''}
 
     def generate_processes(self, config):
-        return probes.build_tree(copy.deepcopy(
-            TEMPLATES[config['template']]['processes']))
+        return _renamed(probes.build_tree(copy.deepcopy(
+            TEMPLATES[config['template']]['processes'])), config['rename'])
 
     def generate_steps(self, config):
-        return probes.build_tree(copy.deepcopy(
-            TEMPLATES[config['template']]['steps']))
+        return _renamed(probes.build_tree(copy.deepcopy(
+            TEMPLATES[config['template']]['steps'])), config['rename'])
 
     def generate_flow(self, config):
-        return copy.deepcopy(TEMPLATES[config['template']]['flow'])
+        sfx = config['rename']
+        flow = copy.deepcopy(TEMPLATES[config['template']]['flow'])
+        return {k + sfx: [tuple(d[:-1]) + (d[-1] + sfx,) for d in deps]
+                for k, deps in flow.items()}
 
     def generate_topology(self, config):
-        return copy.deepcopy(TEMPLATES[config['template']]['topology'])
+        return _renamed(copy.deepcopy(
+            TEMPLATES[config['template']]['topology']), config['rename'])
 
 
 def render(tree):
@@ -492,8 +510,131 @@ def check_override_survives(how, later, acc):
             f'engine starts with {first} (override default 4321)', case))
 
 
+def check_meta(t1, t2, path, acc):
+    """MetaComposer: the composite of a collection of composers is the
+    union of their composites (under the path) and runs like the merge of
+    the individual composites; overlapping keys are rejected."""
+    from vivarium.core.composer import MetaComposer
+    case = {'part': 'meta', 't1': t1, 't2': t2, 'path': path}
+    acc.case(key=('meta', t1, t2, path), outcome='meta')
+    V = lambda rule, fp, msg: acc.violate(  # noqa
+        fw.violation(rule, fp, msg, case))
+
+    def mk():
+        return (ProbeComposer({'template': t1}),
+                ProbeComposer({'template': t2, 'rename': '_b'}))
+    try:
+        a, b = mk()
+        mc = MetaComposer([a])
+        mc.add_composer(b)
+        comp = mc.generate(path=path)
+        a2, b2 = mk()
+        ref = a2.generate(path=path)
+        ref.merge(composite=b2.generate(path=path))
+    except Exception as e:  # noqa
+        V('C16.crash', f'meta:{type(e).__name__}', f'{case}: {e!r}')
+        return
+    for part in ('processes', 'steps', 'flow', 'topology'):
+        if render_shape(comp[part]) != render_shape(ref[part]):
+            V('C16.merge', f'meta-{part}-differs-from-union',
+              f'MetaComposer([{t1}, {t2}_b]) at {path}: {part} = '
+              f'{render_shape(comp[part])}, the merged composites hold '
+              f'{render_shape(ref[part])}')
+            return
+    try:
+        e1 = run_engine(composite=comp, initial_state=comp.initial_state())
+        e2 = run_engine(composite=ref, initial_state=ref.initial_state())
+    except Exception as e:  # noqa
+        V('C16.crash', f'meta-run:{type(e).__name__}', f'{case}: {e!r}')
+        return
+    if rows_of(e1) != rows_of(e2):
+        V('C16.merge', 'meta-trajectory-differs-from-merge',
+          f'MetaComposer([{t1}, {t2}_b]) at {path}: rows '
+          f'{rows_of(e1)[:2]} vs merged composites {rows_of(e2)[:2]}')
+        return
+    # overlapping keys (both templates name a process p) are rejected
+    try:
+        MetaComposer([ProbeComposer({'template': t1}),
+                      ProbeComposer({'template': t2})]).generate(path=path)
+    except ValueError:
+        return
+    except Exception as e:  # noqa
+        V('C16.merge', f'meta-overlap-raises-{type(e).__name__}',
+          f'overlapping keys raised {e!r}, expected ValueError')
+        return
+    V('C16.merge', 'meta-overlap-accepted',
+      f'MetaComposer([{t1}, {t2}]) with overlapping key p did not raise')
+
+
+def check_process_generate(path, as_step, renamed, acc):
+    """A single process is a composite too: Process.generate(config,
+    path) holds the process under its name below ``path``, wired port by
+    port to stores of the ports' names (or as the config's topology says),
+    and an engine built from those parts runs it there."""
+    case = {'part': 'process-generate', 'path': path, 'as_step': as_step,
+            'renamed': renamed}
+    acc.case(key=('process-generate', path, as_step, renamed),
+             outcome='process-generate')
+    spec = pspec('solo', 's')
+    spec['schema']['other'] = {'z': {'_default': 3, '_emit': True}}
+    spec['update'] = {'port': {'x': 1}, 'other': {'z': 2}}
+    if as_step:
+        spec['cls'] = 'S'
+    proc = probes.build_tree({'solo': spec})['solo']
+    config = {'name': 'renamed', 'topology': {'other': ('far', 'away')}} \
+        if renamed else None
+    name = 'renamed' if renamed else proc.name
+    try:
+        g = proc.generate(config, path=path)
+        # a ticker makes one batch (hence one step phase) per tick
+        ticker = probes.build_tree({'t': {
+            'cls': 'P', 'pid': 'ticker', 'ts': 1, 'log_states': False,
+            'schema': {'tk': {'n': dict(VAR)}},
+            'update': {'tk': {'n': 1}}}})['t']
+        eng = run_engine(2, processes=dict(g['processes'], ticker=ticker),
+                         steps=g['steps'], flow=g['flow'],
+                         topology=dict(g['topology'],
+                                       ticker={'tk': ('tks',)}))
+        tree = probes.pure(eng.state.get_value())
+    except Exception as e:  # noqa
+        acc.violate(fw.violation(
+            'C16.crash', f'process-generate:{type(e).__name__}',
+            f'{case}: {e!r}', case))
+        return
+    own = 'steps' if as_step else 'processes'
+    other = 'processes' if as_step else 'steps'
+    want_topo = {'port': ('port',),
+                 'other': ('far', 'away') if renamed else ('other',)}
+    ok = (get(g[own], path) == {name: proc}
+          and not get(g[other], path)
+          and get(g['topology'], path) == {name: want_topo}
+          and not get(g['flow'], path))
+    if not ok:
+        acc.violate(fw.violation(
+            'C16.embed', 'process-generate-parts-wrong',
+            f'Process.generate(path={path}, config={config}) gave '
+            f'{render(g)}', case))
+        return
+    here = get(tree, path)
+    ran = 3 if as_step else 2     # steps also run at construction
+    z_at = here.get('far', {}).get('away', {}) if renamed else \
+        here.get('other', {})
+    if here.get('port', {}).get('x') != ran or \
+            z_at.get('z') != 3 + 2 * ran:
+        acc.violate(fw.violation(
+            'C16.embed', 'process-generate-runs-elsewhere',
+            f'engine from Process.generate(path={path}, config={config}) '
+            f'holds {tree} after 2 ticks', case))
+
+
 def run_job(job, acc):
     kind = job[0]
+    if kind == 'process-generate':
+        check_process_generate(job[1], job[2], job[3], acc)
+        return
+    if kind == 'meta':
+        check_meta(job[1], job[2], job[3], acc)
+        return
     if kind == 'override-survives':
         check_override_survives(job[1], job[2], acc)
         return
@@ -523,6 +664,13 @@ def jobs(ctx):
             # (only template in which p alone declares s/x: a variable
             # shared by several declarers takes the last declared default)
             out.append(('late-override', tname))
+    for t1, t2 in itertools.permutations(TEMPLATES, 2):
+        for path in paths:
+            out.append(('meta', t1, t2, path))
+    for path in paths:
+        for as_step in (False, True):
+            for renamed in (False, True):
+                out.append(('process-generate', path, as_step, renamed))
     for how in ('config', 'merge'):
         for later in ('none', 'replace', 'unrelated', 'other-override'):
             out.append(('override-survives', how, later))
@@ -549,6 +697,11 @@ def replay(case):
         check_merges(tup(case['sequence']), acc)
     elif case['part'] == 'late-override':
         check_late_override(case['template'], acc)
+    elif case['part'] == 'meta':
+        check_meta(case['t1'], case['t2'], tup(case['path']), acc)
+    elif case['part'] == 'process-generate':
+        check_process_generate(tup(case['path']), case['as_step'],
+                               case['renamed'], acc)
     elif case['part'] == 'override-survives':
         check_override_survives(case['how'], case['later'], acc)
     elif case['part'] == 'entry':
